@@ -51,6 +51,30 @@ class IndexEnum:
             if isinstance(e.value, (int, str)) and not isinstance(e.value, bool):
                 return e.value
             raise NotEvaluable(norm(e))
+        if isinstance(e, ast.Call) and not e.keywords:
+            f = dotted_name(e.func)
+            # operator.index / int of an integer is that integer
+            if f in ('operator.index', 'int') and len(e.args) == 1:
+                v = self.ev(e.args[0], env)
+                if isinstance(v, int) and not isinstance(v, bool):
+                    return v
+                raise NotEvaluable(norm(e))
+            if f == 'len' and len(e.args) == 1:
+                v = self.ev(e.args[0], env)
+                if isinstance(v, tuple):
+                    return len(v)
+                raise NotEvaluable(norm(e))
+            if f is not None and f not in ('range', 'enumerate', 'zip', 'reversed', 'list', 'tuple'):
+                tgt = self.model.resolve_dotted(self.modname, f)
+                if tgt is not None and tgt[0] == 'func':
+                    return self.call_function(tgt[1], [self.ev(a, env) for a in e.args])
+        if isinstance(e, ast.Subscript) and isinstance(e.slice, (ast.Constant, ast.UnaryOp, ast.Name)) and not isinstance(e.value, ast.Name):
+            # an element of a tuple of indices: f(n)[0]
+            base = self.ev(e.value, env)
+            k = self.ev(e.slice, env)
+            if isinstance(base, tuple) and isinstance(k, int) and -len(base) <= k < len(base):
+                return base[k]
+            raise NotEvaluable(norm(e))
         if isinstance(e, ast.Name):
             if e.id in env:
                 return env[e.id]
@@ -179,9 +203,42 @@ class IndexEnum:
             return self.seqs[e.id]
         raise NotEvaluable(norm(e))
 
+    PURE_DECORATORS = ('functools.lru_cache', 'functools.cache', 'lru_cache', 'cache')
+
+    def call_function(self, fi, args):
+        """value of a module-level index function for integer / tuple arguments: its body is interpreted like any other
+        (integer assignments, loops, tests); a memoising decorator does not change the value of a function of integers"""
+        if any(isinstance(n, (ast.Yield, ast.YieldFrom)) for n in ast.walk(fi.node)):
+            return tuple(self.run_generator(fi, args))
+        for d in fi.node.decorator_list:
+            dn = dotted_name(d.func if isinstance(d, ast.Call) else d) or ''
+            r_ = self.model.resolve_dotted(fi.module, dn) if dn else None
+            full = r_[1] if (r_ is not None and r_[0] == 'ext') else dn
+            if full not in self.PURE_DECORATORS:
+                raise NotEvaluable('call of %s (decorator %s)' % (fi.qualname, dn))
+        if len(args) != len(fi.params):
+            raise NotEvaluable('call of %s: arity' % fi.qualname)
+        self._depth = getattr(self, '_depth', 0)
+        if self._depth > 4:
+            raise NotEvaluable('call depth')
+        sub = IndexEnum(self.model, fi.module, {}, budget=self.budget)
+        sub._depth = self._depth + 1
+        sub.env = dict(zip(fi.params, args))
+        try:
+            sub.run(fi.node.body)
+        except _Abort:
+            pass
+        self.budget = sub.budget
+        if sub.unknown or sub.events or sub.returned is None or sub.returned.value is None:
+            raise NotEvaluable('call of %s: %s' % (fi.qualname, (sub.unknown or ['not an index function'])[0]))
+        try:
+            return sub.ev(sub.returned.value)
+        except NotEvaluable:
+            return tuple(sub.ev_iter(sub.returned.value))
+
     def run_generator(self, fi, args):
         if not any(isinstance(n, (ast.Yield, ast.YieldFrom)) for n in ast.walk(fi.node)):
-            raise NotEvaluable('call of %s (not an index generator)' % fi.qualname)
+            return list(self.call_function(fi, args))
         sub = IndexEnum(self.model, fi.module, {}, budget=self.budget)
         sub.env = dict(zip(fi.params, args))
         sub.yields = []
